@@ -1,5 +1,6 @@
 import QiVerif.Driver.Util
 import QiVerif.Model.Idl
+import QiVerif.Model.IdlLines
 namespace QiVerif.Driver.C18
 open QiVerif QiVerif.Driver QiVerif.Idl
 
@@ -10,8 +11,44 @@ where Codec_sb (s : String) : Bytes := s.toUTF8.toList
 
 def scope (n : Bytes) : Option Bytes := (env.find? (·.1 == n)).map (·.2)
 
+def insertBy (p : Nat × String) : List (Nat × String) → List (Nat × String)
+  | [] => [p]
+  | x :: r => if p.1 ≤ x.1 then p :: x :: r else x :: insertBy p r
+
+def str (b : Bytes) : String := String.fromUTF8! (ByteArray.mk b.toArray)
+
+/-- the signature of a parameter list: a tuple -/
+def paramsSig (ps : List Param) : Option Bytes :=
+  (sigIns scope (ps.map (·.ty))).map (fun s => [40] ++ s ++ [41])
+
+def renderAction (withNames : Bool) (uid : Nat) (a : Action) : String :=
+  let kind := match a.kind with | .fn => "fn" | .sig => "sig" | .prop => "prop"
+  let ps := match a.kind, a.params with
+    | .prop, [p] => sigIn scope p.ty       -- a property with one parameter has the signature of its value
+    | _, _ => paramsSig a.params
+  let ret := match a.ret with | none => some [118] | some t => sigIn scope t
+  match ps, ret with
+  | some p, some r =>
+    let names := if withNames then " [" ++ ",".intercalate (a.params.map (fun q => str q.name)) ++ "]" else ""
+    s!"{kind} {uid} {str a.name} {str p}" ++ (if a.kind == .fn then " -> " ++ str r else "") ++ names
+  | _, _ => s!"{kind} {uid} {str a.name} unresolved"
+
+def renderItf (itf : Itf) : String :=
+  let sorted (m : List (Nat × Action)) (names : Bool) : List String :=
+    ((m.map (fun p => (p.1, renderAction names p.1 p.2))).foldl (fun acc e => insertBy e acc) []).map (·.2)
+  "; ".intercalate (sorted itf.methods true ++ sorted itf.signals false ++ sorted itf.props false)
+
 def run (args : List String) : String :=
   match args with
+  | ["idl.actions", h] =>
+    match parseHex h with
+    | none => "bad-op"
+    | some text =>
+      let f := 2 * text.length + 4
+      let (as, rest) := parseActions (text.length + 1) f text
+      if !(skipWS rest).isEmpty then "err" else
+      let out := renderItf (assignIds as 100 {})
+      if out.isEmpty then "ok" else "ok " ++ out
   | ["idl.type", h] =>
     match parseHex h with
     | none => "bad-op"
